@@ -5,12 +5,19 @@ SLOOPS = ["secp256k1_range_proveparams.0:20", "secp256k1_range_proveparams.1:20"
           "secp256k1_rangeproof_sign_impl.2:33", "secp256k1_rangeproof_sign_impl.3:5", "secp256k1_rangeproof_sign_impl.4:33",
           "secp256k1_rangeproof_sign_impl.5:129", "secp256k1_clz64_var.0:65"]
 SFUNCS = ["secp256k1_rangeproof_sign_impl", "secp256k1_range_proveparams", "secp256k1_rangeproof_serialize_point", "secp256k1_rangeproof_max_size"]
+SLOOPS_B = ["secp256k1_range_proveparams.0:20", "secp256k1_range_proveparams.1:20", "secp256k1_range_proveparams.2:3",
+            "secp256k1_rangeproof_sign_impl.2:3", "secp256k1_rangeproof_sign_impl.3:5", "secp256k1_rangeproof_sign_impl.4:3",
+            "secp256k1_rangeproof_sign_impl.5:9", "secp256k1_clz64_var.0:65"]
 CLOSED = "full unwinding to the code-enforced constants (exp <= 18, 32 rings, 128 ring members, clz <= 64); unwinding assertions prove the bounds"
 UNITS = [
     U("C09.proveparams", ["C09"], "harness/C09/proveparams.c", "h_proveparams",
       functions=["secp256k1_range_proveparams", "secp256k1_clz64_var"], timeout=900, min_obl=300, unwind=66, replay=True, solver="cadical",
       closed_by="full unwinding to the code-enforced constants (exp <= 18, rings <= 32, clz <= 64); unwinding assertions prove the bounds",
       note="pure 64-bit function; all (value, min_value, exp in [-1,18], min_bits in [0,64]) with min_value <= value; product/quotient relations (no 64-bit overflow of v*10^exp, range below 2^64) are NOT in this unit"),
+    U("C09.sign_gates_m4", ["C09", "C08"], "harness/C09/sign_impl.c", "h_sign_gates", defs=["MAXMAN=4"],
+      replace=["secp256k1_rangeproof_pub_expand", "secp256k1_rangeproof_genrand"], assumed=SORACLES, functions=SFUNCS,
+      timeout=900, min_obl=300, unwind=34, unwindset=SLOOPS_B, bounded="value - min_value < 16 and min_bits <= 4 (2 rings, 8 ring members)",
+      note="bounded quick stand-in of C09.sign_gates"),
     U("C09.sign_gates", ["C09", "C08"], "harness/C09/sign_impl.c", "h_sign_gates",
       replace=["secp256k1_rangeproof_pub_expand", "secp256k1_rangeproof_genrand"], assumed=SORACLES, functions=SFUNCS,
       timeout=2400, min_obl=300, unwind=34, unwindset=SLOOPS, closed_by=CLOSED, tier="thorough",
